@@ -72,6 +72,15 @@ def run(ctx):
         wf(ctx, 'Element.toXml', real, t)
         if i < 2: ctx.sample({'tree': t, 'xml_tail': real[-160:]})
     XC.corr_parser(ctx, 400 if ctx.quick else 8000)
+    # elements the library keeps no attribute table for (text:page-count, math:math, xforms:model ...): whatever a factory call
+    # with a keyword leaves in the tree has to come out well-formed
+    from odf import text as T_, math as M_
+    for label, mk_ in (('text.PageCount(numformat=..)', lambda: T_.PageCount(numformat='1')), ('text.WordCount(numformat=..)', lambda: T_.WordCount(numformat='1')),
+                       ('math.Math(display=..)', lambda: M_.Math(display='block')), ('text.ReferenceRef(refname=..)', lambda: T_.ReferenceRef(refname='r'))):
+        try: e_ = mk_()
+        except AttributeError: ctx.bump('table-less element: keyword refused'); continue
+        d_ = OpenDocumentText(); p_ = T_.P(text='x'); p_.addElement(e_, check_grammar=False); d_.text.addElement(p_)
+        wf(ctx, 'contentxml', d_.contentxml(), {'factory_call': label})
     # "no namespace" can be said in two ways through the API (None and ''): one attribute all the same
     for first, second in ((None, ''), ('', None)):
         e = Element(qname=(X.TEXTNS, 'p'), check_grammar=False)
